@@ -100,6 +100,8 @@ structure Args where
   query    : Bool := false          -- FilterQuery is not None
   coe      : Bool := false          -- ContinueOnError is not None
   rqrc     : Bool := false          -- ReturnQueryResultClass is not None (IterQueryInstances)
+  coeType  : Bool := false          -- ContinueOnError is given with a non-bool type
+  filterType : Bool := false        -- FilterQuery / FilterQueryLanguage is given with a non-string type
   deriving DecidableEq, Repr, Inhabited
 
 /-- mirrors _validate_MaxObjectCount_Iter -/
@@ -127,26 +129,39 @@ def maxOf : IntArg → Int
 /-! ### the server side of Open and of the traditional operation -/
 
 
+/-- mirrors the client part of the Open…() methods: `_iparam_bool(ContinueOnError)`, `_iparam_string(FilterQuery /
+    FilterQueryLanguage)` raise TypeError before anything is sent (only for arguments that are given; the query
+    strings of IterQueryInstances are not modelled) -/
+def typeBad (a : Args) : Bool :=
+  (a.coe && a.coeType) ||
+  (decide (a.fam ≠ .query) && (a.query || decide (a.lang ≠ .none)) && a.filterType)
+
 /-- mirrors _validate_open_params (empty strings not modelled) -/
-def openParamErr (a : Args) : Option Nat :=
+def serverParamErr (a : Args) : Option Nat :=
   if a.lang = .none ∧ a.query = true then some CIM_ERR_INVALID_PARAMETER
   else if a.lang = .other then some CIM_ERR_QUERY_LANGUAGE_NOT_SUPPORTED
   else match a.timeout with
     | .int k => if k > (Pywbem.Generated.openMaxTimeout : Int) then some CIM_ERR_INVALID_PARAMETER else none
     | _ => none
 
+/-- what is wrong with the session parameters of the Open request: a client-side TypeError, or the status the
+    server's `_validate_open_params` answers -/
+def openParamErr (a : Args) : Option PyExc :=
+  if typeBad a then some .typeError else (serverParamErr a).map PyExc.cimError
+
 /-- status of the traditional operation (None = it succeeds with `tradObjs`).  The harness observes it on the
     real connection; it is *not* derived from the namespace list, because the operations differ there
     (the mock's ExecQuery answers CIM_ERR_NOT_SUPPORTED before it looks at the namespace) -/
 def tradErrOf (_s : Pull.State) (a : Args) : Option Nat := a.tradErr
 
-/-- mirrors MainProvider.Open…(): pull enabled?, namespace, open params, the traditional
+/-- mirrors WBEMConnection.Open…() (parameter types) and MainProvider.Open…(): pull enabled?, namespace, open params, the traditional
     provider method, `_open_response` (= C14 `stepOpen`, called with default session parameters: the parameter
     checks have been made above, in front of the traditional provider method as in the code) -/
 def srvOpen (s : Pull.State) (a : Args) : Pull.State × Out :=
-  if s.disabled then (s, .err (.cimError CIM_ERR_NOT_SUPPORTED))
+  if typeBad a then (s, .err .typeError)        -- client side: nothing is sent
+  else if s.disabled then (s, .err (.cimError CIM_ERR_NOT_SUPPORTED))
   else if !(s.nss.contains a.ns) then (s, .err (.cimError CIM_ERR_INVALID_NAMESPACE))
-  else match openParamErr a with
+  else match serverParamErr a with
     | some e => (s, .err (.cimError e))
     | none => match a.tradErr with
       | some e => (s, .err (.cimError e))
@@ -155,13 +170,14 @@ def srvOpen (s : Pull.State) (a : Args) : Pull.State × Out :=
 /-! ### the connection -/
 
 inductive SrvOp where
-  | open (f : Family) | pull (f : Family) | close | trad (f : Family)
+  | open (f : Family) | pull (f : Family) | close (ctx : Option Nat) | trad (f : Family)
   deriving DecidableEq, Repr
 
 structure Conn where
   srv   : Pull.State
   flags : Family → Option Bool          -- the seven `_use_*_pull_operations` attributes
-  log   : List (SrvOp × Option PyExc) := []   -- requests that reached `_imethodcall`, with their outcome
+  log   : List (SrvOp × Option PyExc) := []   -- requests that reached `_imethodcall`, with their outcome (plus Open
+                                              -- calls stopped by the client-side type check: outcome TypeError)
 
 def setFlag (fl : Family → Option Bool) (f : Family) (v : Option Bool) : Family → Option Bool :=
   fun g => if g = f then v else fl g
@@ -180,7 +196,7 @@ def doPull (c : Conn) (a : Args) (ctx : Option Nat) : Conn × Out :=
 
 def doClose (c : Conn) (ctx : Option Nat) : Conn × Out :=
   let r := stepClose c.srv ctx
-  ({ c with srv := r.1, log := c.log ++ [(.close, outErr r.2)] }, r.2)
+  ({ c with srv := r.1, log := c.log ++ [(.close ctx, outErr r.2)] }, r.2)
 
 /-! ### generators -/
 
@@ -367,6 +383,16 @@ inductive Ev where
 
 def setAt {α} (f : Nat → α) (i : Nat) (v : α) : Nat → α := fun j => if j = i then v else f j
 
+/-- a namespace disappears: for a generator that has not started yet the traditional operation (and the Open) of its
+    call will now answer CIM_ERR_INVALID_NAMESPACE — except ExecQuery, which the mock refuses before it looks at the
+    namespace.  Running generators keep their state (their next Pull is refused by the server model). -/
+def nsGone (ns : Nat) (g : Gen) : Gen :=
+  match g with
+  | .notStarted a =>
+    if a.ns = ns ∧ a.fam ≠ .query then .notStarted { a with tradErr := some CIM_ERR_INVALID_NAMESPACE, tradObjs := [] }
+    else g
+  | g => g
+
 def stepW (w : World) (ev : Ev) : World × Res :=
   match ev with
   | .call a =>
@@ -390,7 +416,8 @@ def stepW (w : World) (ev : Ev) : World × Res :=
   | .setDisabled b =>
     ({ w with conn := { w.conn with srv := { w.conn.srv with disabled := b } } }, .ok)
   | .removeNs ns =>
-    ({ w with conn := { w.conn with srv := { w.conn.srv with nss := w.conn.srv.nss.filter (· != ns) } } }, .ok)
+    ({ w with conn := { w.conn with srv := { w.conn.srv with nss := w.conn.srv.nss.filter (· != ns) } },
+              gens := fun j => nsGone ns (w.gens j) }, .ok)
 
 def runW (w : World) : List Ev → World × List Res
   | [] => (w, [])
